@@ -62,6 +62,8 @@ type ChanPlan struct {
 	// for that reason has sent nothing (and ended nothing) and is repeated with the same message.
 	SendCtx   [2]int `json:"send_ctx,omitempty"`
 	SendCtxUs [2]int `json:"send_ctx_us,omitempty"`
+	// RecvPoll: the receiver of a side uses ReceiveAsync + ReceiveWait (armed before the poll) instead of Receive
+	RecvPoll [2]bool `json:"recv_poll,omitempty"`
 }
 
 // sideEnd returns the ending action of one side (-1: none) and how many messages it waits for.
@@ -162,6 +164,7 @@ type flowRun struct {
 	stranded         int
 	recvCtxExpired   int // Receive calls that ended by the receiver's own deadline and were repeated
 	sendCtxExpired   int // likewise Send calls
+	userConns        [2][]mpx.Conn // connections the harness has seen through its channels: [client ends, server ends]
 }
 
 func newFlowRun(p *FlowPlan) *flowRun {
@@ -305,6 +308,7 @@ func (r *flowRun) runChannelClient(cs *chanState, open opener) {
 	cs.opened = true
 	isX := cp.enderIsClient()
 	chCtx, chConn := ch.Context(), ch.Conn()
+	r.noteConn(0, chConn)
 
 	if cp.OpenClose {
 		// first and only operation: SendAndClose
@@ -440,6 +444,34 @@ func (r *flowRun) sendDeadline(cs *chanState, dir int, parent async.Context, sen
 	}
 }
 
+// noteConn remembers a connection seen through a channel (for fault ops that close it the way a user would).
+func (r *flowRun) noteConn(side int, c mpx.Conn) {
+	for _, x := range r.userConns[side] {
+		if x == c {
+			return
+		}
+	}
+	r.userConns[side] = append(r.userConns[side], c)
+}
+
+// pollReceive is Receive written by a user of the polling interface: arm ReceiveWait, poll ReceiveAsync,
+// wait for the armed channel or the context.
+func pollReceive(ch mpx.Channel, ctx async.Context) ([]byte, status.Status) {
+	for {
+		wait := ch.ReceiveWait()
+		data, ok, st := ch.ReceiveAsync(ctx)
+		switch {
+		case !st.OK():
+			return nil, st
+		case ok:
+			return data, status.OK
+		}
+		if simrt.Select(0, ctx.Wait(), wait) == 0 {
+			return nil, ctx.Status()
+		}
+	}
+}
+
 // recvLoop receives on ch until a non-OK status or until limit messages were
 // received in this direction (limit<0: no limit). With drainOnCancel the loop
 // keeps polling after a Cancelled status (a handler that waits on its own
@@ -470,7 +502,13 @@ func (r *flowRun) recvLoop(cs *chanState, dir int, ch mpx.Channel, ctx async.Con
 			own = async.TimeoutContext(time.Duration(ownUs) * time.Microsecond)
 			rctx = own
 		}
-		data, st := ch.Receive(rctx)
+		var data []byte
+		var st status.Status
+		if cs.plan.RecvPoll[side] {
+			data, st = pollReceive(ch, rctx)
+		} else {
+			data, st = ch.Receive(rctx)
+		}
 		if own != nil {
 			expired := own.Done()
 			own.Free()
@@ -526,6 +564,7 @@ func (r *flowRun) handler(ctx mpx.Context, ch mpx.Channel) (ret status.Status) {
 	defer hbRelease()
 	r.active++
 	defer func() { r.active-- }()
+	r.noteConn(1, ch.Conn())
 	// first message identifies the channel
 	first, st := ch.Receive(r.bg)
 	if !st.OK() {
